@@ -354,6 +354,49 @@ def h04_rabbit_crowded(S):
                  f"is in {out['where']} and the normal consumer received {None if out['got'] is None else out['got'][0].id_}")
 
 
+
+def h04_rabbit_peek(S):
+    """RabbitMQ: while a worker executes an attempt, somebody on the same connection looks into another category of the queue
+    (Queue.get_messages(category=DEAD)) and closes that consumer again: the attempt is not delivered a second time."""
+    import asyncio
+    from fractions import Fraction
+    from repid import Job, Router, Worker
+    from repid.converter import BasicConverter
+    from repid.message import MessageCategory
+    from harness.actors import counting_sleeper_fn
+    from harness.common import World
+
+    peek_at = [Fraction(1, 20), Fraction(3, 20)][S.pick("peek_during_attempt", 2)]
+    runs = []
+    out = {}
+
+    async def main(loop):
+        w = World(backend="rabbit")
+        await w.open(record=False)
+        r = Router()
+        r.actor(name="job", converter=BasicConverter, retry_policy=lambda retry_number=1: real_timedelta(0))(counting_sleeper_fn(runs, Fraction(1, 10)))
+        await Job("job", id_="m1", retries=1, _connection=w.conn).enqueue()
+        worker = Worker(routers=[r], handle_signals=[], _connection=w.conn, graceful_shutdown_time=1.0, messages_limit=2, tasks_limit=2)
+        task = asyncio.create_task(worker.run())
+        await asyncio.sleep(peek_at)
+        peek = w.broker.get_consumer("default", ["job"], None, MessageCategory.DEAD)
+        await peek.start()
+        await asyncio.sleep(Fraction(1, 100))
+        await peek.finish()
+        try:
+            await asyncio.wait_for(task, timeout=10)
+            out["returned"] = True
+        except asyncio.TimeoutError:
+            out["returned"] = False
+        await asyncio.sleep(Fraction(1, 2))
+        out["places"] = {i: sorted(p[0] for p in v) for i, v in w.places().items()}
+
+    run_async(main)
+    S.cover("peeked-during-an-attempt")
+    S.check("each-attempt-executed-once", runs == [0, 1] and out["returned"], info=f"attempt counters seen by the actor: {runs}")
+    S.check("exhausted-chain-ends-dead", out["places"].get("m1", []) == ["dead"], info=str(out["places"]))
+
+
 from harness.c05 import h05_rabbit, h05_redis  # noqa: E402
 from harness.c02 import h02_rabbit_retry  # noqa: E402
 
@@ -418,3 +461,8 @@ HARNESSES.append(Harness(
     covers=["crowded-delayed-queue"], stubs=["fake AMQP server: x-max-length with drop-head through the declared DLX; the filler messages are put there by the stub"]))
 from engine.harness import borrowed  # noqa: E402
 HARNESSES.append(borrowed("c13", "H13-chain", "H04-chain-with-results"))         # the retry chain goes on whatever the result store does
+HARNESSES.append(Harness(
+    name="H04-rabbit-peek-during-attempt", scenario=h04_rabbit_peek,
+    bounds={"job": "retries 1, zero back-off, every attempt fails after 0.1 s", "peek": "a DEAD-category consumer on the same connection started and finished during the first or the second attempt"},
+    functions=["connections/rabbitmq/consumer.py:_RabbitConsumer.finish", "connections/rabbitmq/message_broker.py:RabbitMessageBroker.requeue"],
+    covers=["peeked-during-an-attempt"], stubs=["fake AMQP server (basic.recover requeues every unacknowledged delivery of the channel)"]))
